@@ -27,8 +27,10 @@ import (
 	"github.com/sboehler/knut/cmd/flags"
 	"github.com/sboehler/knut/cmd/importer"
 	"github.com/sboehler/knut/lib/amounts"
+	"github.com/sboehler/knut/lib/common/compare"
 	"github.com/sboehler/knut/lib/journal"
 	"github.com/sboehler/knut/lib/model"
+	"github.com/sboehler/knut/lib/model/commodity"
 	"github.com/sboehler/knut/lib/model/posting"
 	"github.com/sboehler/knut/lib/model/registry"
 	"github.com/sboehler/knut/lib/model/transaction"
@@ -208,16 +210,31 @@ func (p *parser) parseBooking() error {
 }
 
 func (p *parser) addBalances() {
-	for k, bal := range p.balance {
+	for _, k := range p.balanceKeys() {
 		p.builder.Add(&model.Assertion{
 			Date: k.Date,
 			Balances: []model.Balance{
 				{
 					Commodity: k.Commodity,
-					Quantity:  bal,
+					Quantity:  p.balance[k],
 					Account:   p.account,
 				},
 			},
 		})
 	}
+}
+
+// balanceKeys returns the keys of the collected balances ordered by date, then commodity
+// (the assertions of one day are printed in the order in which they are added).
+func (p *parser) balanceKeys() []amounts.Key {
+	keys := p.balance.Index(nil)
+	compare.Sort(keys, compareBalanceKeys)
+	return keys
+}
+
+func compareBalanceKeys(k1, k2 amounts.Key) compare.Order {
+	if o := compare.Time(k1.Date, k2.Date); o != compare.Equal {
+		return o
+	}
+	return commodity.Compare(k1.Commodity, k2.Commodity)
 }
